@@ -1,6 +1,7 @@
 package props
 
 import (
+	"image/color"
 	"bytes"
 	"encoding/binary"
 	"fmt"
@@ -83,7 +84,7 @@ func genC16(t *rapid.T) *c16Case {
 	case "animenc":
 		s := gen.DrawAnimSeq(t, 16, 5, 1, []string{"opaque", "binary", "levels", "semi-flat"})
 		imgs, durs := seqImages(s)
-		eo := &animation.EncodeOptions{Lossless: rapid.Bool().Draw(t, "lossless"), AllowMixed: rapid.Bool().Draw(t, "mixed"), Quality: 70, Kmin: s.Kmin, Kmax: s.Kmax, LoopCount: s.Loop}
+		eo := &animation.EncodeOptions{Lossless: rapid.Bool().Draw(t, "lossless"), AllowMixed: rapid.Bool().Draw(t, "mixed"), Quality: 70, Kmin: s.Kmin, Kmax: s.Kmax, LoopCount: s.Loop, BackgroundColor: color.NRGBA{R: s.BG[0], G: s.BG[1], B: s.BG[2], A: s.BG[3]}}
 		b, err := animEncode(s.CW, s.CH, imgs, durs, eo, nil, nil, nil, false)
 		if err != nil {
 			t.Fatalf("animEncode: %v", err)
@@ -330,6 +331,30 @@ func checkC16(c *c16Case, o *core.Obs) error {
 	cfg2, name2, err := image.DecodeConfig(bytes.NewReader(data))
 	if err != nil || name2 != "webp" || cfg2.Width != cfg.Width || cfg2.Height != cfg.Height || cfg2.ColorModel != cfg.ColorModel {
 		return fmt.Errorf("image.DecodeConfig: %q %v %+v vs %+v", name2, err, cfg2, cfg)
+	}
+	// the same file through readers that deliver the bytes differently (all legal io.Readers)
+	rk := readerKinds[int(uint(len(data))*2654435761>>7)%len(readerKinds)]
+	if len(data) <= 4096 || rk.Name != "onebyte" {
+		cfgR, errR := webp.DecodeConfig(rk.New(data))
+		if errR != nil || cfgR.Width != cfg.Width || cfgR.Height != cfg.Height || cfgR.ColorModel != cfg.ColorModel {
+			return fmt.Errorf("DecodeConfig through a %s reader: %v %dx%d, through bytes.Reader %dx%d [%s]", rk.Name, errR, cfgR.Width, cfgR.Height, cfg.Width, cfg.Height, c.Desc)
+		}
+		featR, errR := webp.GetFeatures(rk.New(data))
+		if errR != nil || *featR != *feat {
+			return fmt.Errorf("GetFeatures through a %s reader: %v %+v, through bytes.Reader %+v [%s]", rk.Name, errR, featR, feat, c.Desc)
+		}
+		imgR, errR := webp.Decode(rk.New(data))
+		if errR != nil {
+			return fmt.Errorf("Decode through a %s reader fails: %v [%s]", rk.Name, errR, c.Desc)
+		}
+		if vr := viewOf(imgR, nil); vr.Type != v1.Type || !bytes.Equal(vr.Pix, v1.Pix) {
+			return fmt.Errorf("Decode through a %s reader returns a different picture [%s]", rk.Name, c.Desc)
+		}
+		cfgI, nameI, errI := image.DecodeConfig(rk.New(data))
+		if errI != nil || nameI != "webp" || cfgI.Width != cfg.Width || cfgI.Height != cfg.Height {
+			return fmt.Errorf("image.DecodeConfig through a %s reader: %q %v %dx%d [%s]", rk.Name, nameI, errI, cfgI.Width, cfgI.Height, c.Desc)
+		}
+		o.Label("reader=" + rk.Name)
 	}
 	return nil
 }
